@@ -83,17 +83,22 @@ Theorem C19_failed_config_switch_keeps_state_and_config :
   forall s c f s', update_config s c f = (s', false) -> served s' = served s /\ cfg s' = cfg s.
 Proof. exact update_config_failed_pf. Qed.
 
+(* a failing AllocID ends the transition before anything happened: no id spent, no file, no save, nothing served *)
+Theorem C19_failed_alloc_keeps_everything :
+  forall s t f i, alloc_fails f i = true -> switch s t f i = (s, false).
+Proof. exact failed_alloc_keeps_everything_pf. Qed.
+
 (* ---------- non-vacuity: dr datacenter lost, async, back, recovery over two ticks with a stale region, sync ---------- *)
 Definition ex_boot : bootp :=
   Boot (Config true "zone" 2 1 true) None 10
        [Region 1 "" "k" 0 false; Region 2 "k" "" 0 false]
        [Store 1 "zone" Primary false false; Store 2 "zone" Primary false false; Store 3 "zone" Dr false false] 1.
 Definition ex_ops : list op :=
-  [OStore 3 true; OTick (Fault (Some (0%nat, FBefore)) false); OTick no_fault;      (* async 12 (11 was spent on the failed save) *)
+  [OStore 3 true; OTick (Fault (Some (0%nat, FBefore)) false None); OTick no_fault;      (* async 12 (11 was spent on the failed save) *)
    OStore 3 false; OTick no_fault;                                                  (* sync_recover 13 *)
    OReport 1 13 true; OTick no_fault;                                               (* region 2 still stale *)
    OReport 2 12 true; OTick no_fault;                                               (* stale id *)
-   OReport 2 13 true; OTick (Fault (Some (0%nat, FAfter)) true); OTick no_fault].   (* sync: first attempt applied-but-error *)
+   OReport 2 13 true; OTick (Fault (Some (0%nat, FAfter)) true None); OTick no_fault].   (* sync: first attempt applied-but-error *)
 Example C19_nonvacuous :
   map o_served (run run_op (boot_of ex_boot) ex_ops) =
     [Some (Status Sync 10); Some (Status Sync 10); Some (Status Async 12); Some (Status Async 12);
@@ -112,3 +117,4 @@ Print Assumptions C19_publish_after_persist_and_offer.
 Print Assumptions C19_persist_before_serve.
 Print Assumptions C19_failed_persist_keeps_state.
 Print Assumptions C19_failed_config_switch_keeps_state_and_config.
+Print Assumptions C19_failed_alloc_keeps_everything.
